@@ -1,6 +1,6 @@
 (* C12 -- harvest cadence follows the negotiated periods and stops cleanly.  Statements only. *)
 From Coq Require Import NArith ZArith List Bool.
-From Verif Require Import Trigger TriggerProofs TriggerLts TriggerLtsProofs TriggerThms.
+From Verif Require Import Trigger TriggerProofs TriggerLts TriggerLtsProofs TriggerThms TriggerEnumN.
 From Verif.Gen Require Import Limits_gen HarvestBits_gen.
 Import ListNotations.
 
@@ -82,3 +82,28 @@ Theorem C12_plan_monitor_sound : forall r plan,
   reply_in_range r = true -> trigger_plan r = Some plan -> plan_monitor r plan = true.
 Proof. exact plan_monitor_sound. Qed.
 Print Assumptions C12_plan_monitor_sound.
+
+(* The cancel hand-shake of the broadcast group for EVERY group size up to six (cfgG 6 is the configuration of
+   customTriggerBuilder): no deadlock, progress towards the end once Close was called ... *)
+Theorem C12_group_no_deadlock : forall n, (n <= 6)%nat -> forall s, treach (cfgG n) s -> is_final s = false ->
+  (exists l s', tstep (cfgG n) s l s') /\
+  (close_started s = true -> exists l s', tstep (cfgG n) s l s' /\ is_env l = false).
+Proof. exact group_no_deadlock. Qed.
+Print Assumptions C12_group_no_deadlock.
+
+(* ... no send on a closed channel and no second close, every internal step lowers the rank, and the closing
+   phase can always be completed with every goroutine gone and both channels closed once ... *)
+Theorem C12_group_close_terminates : forall n, (n <= 6)%nat -> forall s, treach (cfgG n) s ->
+  (crashed s = false /\ forall l s', tstep (cfgG n) s l s' -> is_send_on_closed l = false /\ crashed s' = false) /\
+  (close_started s = true ->
+     (forall l s', tstep (cfgG n) s l s' -> is_env l = false -> (rank (cfgG n) s' < rank (cfgG n) s)%N) /\
+     (exists tr s', psteps (cfgG n) s tr s' /\ is_final s' = true /\
+        trig_closed s' = true /\ cancel_closed s' = true /\ crashed s' = false /\ goroutines_gone s' = true)).
+Proof. exact group_close_terminates. Qed.
+Print Assumptions C12_group_close_terminates.
+
+(* ... and the processor never waits inside it. *)
+Theorem C12_group_processor_never_waits : forall n, (n <= 6)%nat -> forall s, treach (cfgG n) s ->
+  ps s <> PW /\ (close_started s = false -> exists s', tstep (cfgG n) s StartClose s' /\ ps s' = ps s).
+Proof. exact group_processor_never_waits. Qed.
+Print Assumptions C12_group_processor_never_waits.
